@@ -17,3 +17,62 @@ pub fn tensor2<B: Backend>(v: &[f64], rows: usize, cols: usize) -> Tensor<B, 2> 
 pub fn to_vec<B: Backend, const D: usize>(t: &Tensor<B, D>) -> Vec<f64> {
     t.to_data().iter::<f64>().collect()
 }
+
+use crate::engine::xo::{rng_f32_k, rng_f64_k, F32_DEN, F64_DEN};
+use rand::rngs::SmallRng;
+
+/// the two float types of the library's scalar code, with crafted-generator support
+pub trait Fl:
+    num_traits::Float + std::ops::AddAssign + std::fmt::Debug + Copy + Send + Sync + 'static
+{
+    const BITS: u32;
+    fn of(x: f64) -> Self;
+    fn f(self) -> f64;
+    fn crafted(k: u64, salt: u64) -> SmallRng;
+    fn den() -> f64;
+    fn next_up_(self) -> Self;
+    fn next_down_(self) -> Self;
+}
+impl Fl for f32 {
+    const BITS: u32 = 24;
+    fn of(x: f64) -> f32 {
+        x as f32
+    }
+    fn f(self) -> f64 {
+        self as f64
+    }
+    fn crafted(k: u64, salt: u64) -> SmallRng {
+        rng_f32_k(k, salt)
+    }
+    fn den() -> f64 {
+        F32_DEN
+    }
+    fn next_up_(self) -> f32 {
+        crate::engine::num::next_up32(self)
+    }
+    fn next_down_(self) -> f32 {
+        crate::engine::num::next_down32(self)
+    }
+}
+impl Fl for f64 {
+    const BITS: u32 = 53;
+    fn of(x: f64) -> f64 {
+        x
+    }
+    fn f(self) -> f64 {
+        self
+    }
+    fn crafted(k: u64, salt: u64) -> SmallRng {
+        rng_f64_k(k, salt)
+    }
+    fn den() -> f64 {
+        F64_DEN
+    }
+    fn next_up_(self) -> f64 {
+        crate::engine::num::next_up(self)
+    }
+    fn next_down_(self) -> f64 {
+        crate::engine::num::next_down(self)
+    }
+}
+
